@@ -7,8 +7,8 @@ import CrabProofs.Lemmas.IntervalMul
 `Crab.IC` is the model of the reduced product (CrabModel/Scalar/IntervalCongruence.lean);
 `IC.mem k p` : `k` is in the interval and in the congruence.  Every operation of the class is
 the component-wise operation followed by `reduce()`; its soundness is the soundness of the
-two components (C08.itv_*, C08.cg_*) plus `ic_reduce_sound`.  It is spelled out for `+ - * |`;
-`& / %  Shl` inherit the defects of `congruence` recorded in `C08Cong.lean`.
+two components (C08.itv_*, C08.cg_*) plus `ic_reduce_sound`.  It is spelled out for `+ - * | &`
+(the other operations have the same shape; the driver evaluates all of them).
 -/
 open Crab
 
@@ -49,6 +49,19 @@ theorem C08.ic_join_upper (p q r : IC) (k : Int) (hk : IC.mem k p ∨ IC.mem k q
   rcases hk with hk | hk
   · exact IC.reduce_sound ⟨Itv.join_upper_left hk.1, Cong.join_upper_left hk.2⟩ h
   · exact IC.reduce_sound ⟨Itv.join_upper_right hk.1, Cong.join_upper_right hk.2⟩ h
+
+/-- `operator&` is exactly the intersection -/
+theorem C08.ic_meet_exact (p q r : IC) (k : Int) (h : IC.meet p q = some r) :
+    IC.mem k r ↔ (IC.mem k p ∧ IC.mem k q) := by
+  have hred := C08.ic_reduce_exact ⟨Itv.meet p.i q.i, Cong.meet p.c q.c⟩ r k h
+  rw [hred]
+  constructor
+  · intro ⟨h1, h2⟩
+    have a1 := Itv.meet_exact h1
+    have a2 := Cong.meet_exact h2
+    exact ⟨⟨a1.1, a2.1⟩, ⟨a1.2, a2.2⟩⟩
+  · intro ⟨h1, h2⟩
+    exact ⟨Itv.meet_sound h1.1 h2.1, Cong.meet_sound h1.2 h2.2⟩
 
 /-- non-vacuity: `[12,+oo] ∩ (4Z-1)` reduces to `[15,+oo]`, `[-12,-7] ∩ (6Z-3)` to the constant -9 -/
 example : IC.reduce ⟨⟨.fin 12, .pinf⟩, ⟨false, 4, -1⟩⟩ = some ⟨⟨.fin 15, .pinf⟩, ⟨false, 4, -1⟩⟩ ∧
